@@ -20,7 +20,8 @@
  *                                  that only one thread names N), eN = like wN but through an ERROR path
  *                                  of the library (json_object_deep_copy of a node that carries userdata
  *                                  fails in json_object_copy_serializer_data -> _json_c_set_last_err);
- *                                  not generated by default, see DEFECTS in tools/props/c18.py
+ *                                  the last-error buffer must not be shared between threads, see DEFECTS
+ *                                  in tools/props/c18.py
  *   main HELD                      references the main thread keeps during the race and drops after join
  *   seed K cands0 cands1 ..        seed race: thread i gets the candidate list cands_i (comma separated)
  *                                  from json_c_get_random_seed; K keys are inserted / looked up
